@@ -170,6 +170,11 @@ func (op Multp) Disassembler(arch *Arch, instr string) (string, error) {
 }
 
 func (op Multp) Simulate(vm *VM, instr string) error {
+	// The pipeline phase belongs to the VM executing the instruction: the opcode object is one
+	// process-wide value shared by every processor of every VM.
+	phase, _ := vm.Extra_states["multp_pipeline"].(bool)
+	op.pipeline = &phase
+	defer func() { vm.Extra_states["multp_pipeline"] = phase }()
 	regBits := vm.Mach.R
 	regDest := get_id(instr[:regBits])
 	regSrc := get_id(instr[regBits : regBits*2])
